@@ -1313,6 +1313,7 @@ func buildExactHistory(dir string, r *rand.Rand, count func(string)) *histRepo {
 		}
 		return b.String()
 	}
+	insertOnly := false
 	edit := func(c string) string {
 		ls, _ := realLines(c)
 		for k := 1 + r.Intn(4); k > 0; k-- {
@@ -1320,7 +1321,11 @@ func buildExactHistory(dir string, r *rand.Rand, count func(string)) *histRepo {
 			if len(ls) > 0 {
 				pos = r.Intn(len(ls) + 1)
 			}
-			switch op := r.Intn(3); {
+			op := r.Intn(3)
+			if insertOnly {
+				op = 2
+			}
+			switch {
 			case op == 0 && pos < len(ls):
 				ls[pos] = fresh()
 			case op == 1 && pos < len(ls) && len(ls) > 1:
@@ -1373,7 +1378,7 @@ func buildExactHistory(dir string, r *rand.Rand, count func(string)) *histRepo {
 		return proj.Commit(dir, tree, date, "c")
 	}
 	var err error
-	h.topo = []string{"linear", "linear", "linear", "pr-older", "pr-newer", "merged-old", "merged-old", "pr-conflict"}[r.Intn(8)]
+	h.topo = []string{"linear", "linear", "linear", "pr-older", "pr-newer", "merged-old", "merged-old", "pr-conflict", "diverged"}[r.Intn(9)]
 	count("topology:" + h.topo)
 	const conflictFile = "pkg/a/conflict.go"
 	if h.topo == "pr-conflict" {
@@ -1418,6 +1423,10 @@ func buildExactHistory(dir string, r *rand.Rand, count func(string)) *histRepo {
 		if h.topo == "pr-newer" {
 			mainBase, featBase = 10, 1000
 		}
+		// diverged: the old revision (tip of main) is not an ancestor of the new one (tip of the
+		// feature branch). Main only INSERTS lines, so every line of the fork point is still in the
+		// old revision and "new" = exactly the lines the feature side wrote
+		insertOnly = h.topo == "diverged"
 		for i := 0; i < nMain; i++ {
 			if h.topo == "pr-conflict" && i == nMain-1 {
 				tree[conflictFile] = setFirst(tree[conflictFile])
@@ -1426,6 +1435,7 @@ func buildExactHistory(dir string, r *rand.Rand, count func(string)) *histRepo {
 				return fail(err)
 			}
 		}
+		insertOnly = false
 		mainTree := tree
 		if _, err = proj.Git(dir, 0, "checkout", "-q", "-b", "feature", fork); err != nil {
 			return fail(err)
@@ -1440,10 +1450,13 @@ func buildExactHistory(dir string, r *rand.Rand, count func(string)) *histRepo {
 			}
 		}
 		_ = mainTree
-		if _, err = proj.Git(dir, 0, "checkout", "-q", "main"); err != nil {
+		if h.topo == "diverged" {
+			// HEAD stays on the feature branch: no merge
+		} else if _, err = proj.Git(dir, 0, "checkout", "-q", "main"); err != nil {
 			return fail(err)
 		}
-		if h.topo == "pr-conflict" {
+		if h.topo == "diverged" {
+		} else if h.topo == "pr-conflict" {
 			if _, err = proj.Git(dir, t0+5000, "merge", "-q", "--no-ff", "-m", "merge", "feature"); err == nil {
 				return fail(fmt.Errorf("the merge was expected to conflict"))
 			}
